@@ -507,3 +507,62 @@ func init() {
 			}
 		}})
 }
+
+func init() {
+	register(&Rule{ID: "L5.bg", Min: 5, Text: "shutdown protocol of the background runner: Background.Go reads the closing channel and registers the goroutine with the WaitGroup while holding wgMu for reading; Background.Close closes the channel while holding wgMu for writing, releases it, and only then waits — so no goroutine is added after Wait has started, and Wait is not called with the mutex held (a running task that starts another task would deadlock)",
+		Run: func(x *Ctx) {
+			bp := "server/backend/background"
+			g := guardedField{bp, "Background", "wgMu", nil, ""}
+			goFn, closeFn := x.fn(bp+".(*Background).Go"), x.fn(bp+".(*Background).Close")
+			if goFn == nil || closeFn == nil {
+				return
+			}
+			{
+				k := "func=" + prog.FnName(goFn)
+				acqs, rels := mutexOps(goFn, g.Type, g.Mutex)
+				var sel, wgGo ssa.Instruction
+				for _, b := range goFn.Blocks {
+					for _, ins := range b.Instrs {
+						switch t := ins.(type) {
+						case *ssa.Select:
+							sel = t
+						case *ssa.UnOp:
+							if t.Op == token.ARROW {
+								sel = t
+							}
+						case ssa.CallInstruction:
+							if o := prog.CallObj(t); o != nil && o.Pkg() != nil && o.Pkg().Path() == "sync" && (o.Name() == "Go" || o.Name() == "Add") {
+								wgGo = ins
+							}
+						}
+					}
+				}
+				if sel == nil || wgGo == nil || len(acqs) == 0 {
+					x.fail(k+" shape", x.fpos(goFn), "expected a read of the closing channel and a WaitGroup registration under wgMu")
+				} else {
+					x.check(heldMutex(sel, acqs[0].Base, acqs, rels, false), k+" closing-read-under-wgMu", x.pos(sel), "the closing channel is read under wgMu", "the closing channel is read without wgMu held: a task can be registered after Close started waiting")
+					x.check(heldMutex(wgGo, acqs[0].Base, acqs, rels, false), k+" register-under-wgMu", x.pos(wgGo), "the goroutine is registered under wgMu", "the goroutine is registered with the WaitGroup without wgMu held")
+					x.check(prog.Dominates(sel, wgGo), k+" closing-read≺register", x.pos(wgGo), "closing is checked before registering", "the goroutine is registered before the closing channel is checked")
+				}
+			}
+			{
+				k := "func=" + prog.FnName(closeFn)
+				acqs, rels := mutexOps(closeFn, g.Type, g.Mutex)
+				var cl, wait ssa.Instruction
+				for _, c := range prog.CallsIn(closeFn) {
+					if bi, ok := c.Common().Value.(*ssa.Builtin); ok && bi.Name() == "close" {
+						cl = c
+					}
+					if o := prog.CallObj(c); o != nil && o.Pkg() != nil && o.Pkg().Path() == "sync" && o.Name() == "Wait" {
+						wait = c
+					}
+				}
+				if cl == nil || wait == nil || len(acqs) == 0 {
+					x.fail(k+" shape", x.fpos(closeFn), "expected close(closing) under wgMu and a Wait")
+				} else {
+					x.check(heldMutex(cl, acqs[0].Base, acqs, rels, true), k+" close-under-wgMu-write", x.pos(cl), "closing is closed under the write lock", "the closing channel is closed without the write lock: it races with Go's registration")
+					x.check(!heldMutex(wait, acqs[0].Base, acqs, rels, false) && prog.Dominates(cl, wait), k+" wait-after-unlock", x.pos(wait), "Wait runs after the mutex was released", "Wait is called with wgMu held (or before closing): a task that starts another task deadlocks the shutdown")
+				}
+			}
+		}})
+}
